@@ -47,27 +47,52 @@ Theorem C04_table_only_frame : forall s ops r o,
 Proof. exact table_only_frame. Qed.
 Print Assumptions C04_table_only_frame.
 
-(** full strength: whatever happens between MemSet and its acknowledged Commit, reads at the
-    root return the content MemSet computed.  REFUTED (finding C04-1). *)
-Definition C04_commit_exact_full : Prop := commit_exact_full.
-
-Theorem C04_commit_exact_refuted : ~ C04_commit_exact_full.
-Proof. exact commit_exact_refuted. Qed.
-Print Assumptions C04_commit_exact_refuted.
-
-(** ... it holds when no empty MemSet is issued ON THAT ROOT in between (boolean guard
-    [no_marker_on]); then also for ever after and after restarts *)
-Theorem C04_commit_exact_partial : forall s p o kvs r s1 ops x s2,
+(** an update that is still pending when it is committed (no Rollback of its root, no restart
+    in between): whatever else happens between MemSet and its acknowledged Commit - other
+    updates, commits and rollbacks, reads, EMPTY MemSets on the root itself (former finding
+    C04-1, fixed in chain33: the shortcut keeps what waits under the hash) - reads at the root
+    return the content MemSet computed, for ever after and after restarts *)
+Theorem C04_commit_exact : forall s p o kvs r s1 ops x s2,
   inv s -> committed s p o ->
   mem_set s p kvs = (RRoot r, s1) ->
-  no_marker_on r ops = true ->
+  still_pending r ops = true ->
   step (run s1 ops) (OCommit r) = (RRoot x, s2) ->
   exists oc, o_elements oc = apply_writes (o_elements o) kvs /\ committed s2 r oc /\
     forall later k,
       read (run s2 later) r k = sget (apply_writes (o_elements o) kvs) k /\
       read (restart (run s2 later)) r k = sget (apply_writes (o_elements o) kvs) k.
-Proof. exact commit_exact_partial. Qed.
-Print Assumptions C04_commit_exact_partial.
+Proof. exact commit_exact. Qed.
+Print Assumptions C04_commit_exact.
+
+(** the same under the weakest guard: the root may be rolled back / lost in a restart and
+    computed again, as long as no empty MemSet is issued on it AFTER it was discarded *)
+Theorem C04_commit_exact_general : forall s p o kvs r s1 ops x s2,
+  inv s -> committed s p o ->
+  mem_set s p kvs = (RRoot r, s1) ->
+  no_marker_after_discard r ops = true ->
+  step (run s1 ops) (OCommit r) = (RRoot x, s2) ->
+  exists oc, o_elements oc = apply_writes (o_elements o) kvs /\ committed s2 r oc /\
+    forall later k,
+      read (run s2 later) r k = sget (apply_writes (o_elements o) kvs) k /\
+      read (restart (run s2 later)) r k = sget (apply_writes (o_elements o) kvs) k.
+Proof. exact commit_exact_general. Qed.
+Print Assumptions C04_commit_exact_general.
+
+(** ... which is implied by "still pending" and by the guard of the former partial theorem
+    (no empty MemSet on the root at all) *)
+Theorem C04_commit_exact_guards : forall r ops,
+  (still_pending r ops = true -> no_marker_after_discard r ops = true) /\
+  (no_marker_on r ops = true -> no_marker_after_discard r ops = true).
+Proof. exact commit_exact_guards. Qed.
+Print Assumptions C04_commit_exact_guards.
+
+(** the "still pending" hypothesis cannot be dropped altogether: after Rollback r an empty
+    MemSet on r is a new update of a root the store does not know; the shortcut accepts it
+    without looking at the database and its Commit is acknowledged (not a pending update of
+    known content: the specification has no obligation there) *)
+Theorem C04_commit_exact_unguarded_false : ~ commit_exact_unguarded.
+Proof. exact commit_exact_unguarded_false. Qed.
+Print Assumptions C04_commit_exact_unguarded_false.
 
 (** two pending updates of one parent, then commits / rollbacks of the two in any order and
     number: a fork whose Commit was acknowledged reads as computed, the parent reads as before *)
